@@ -197,6 +197,30 @@ class StatisticsEndpoint(EndpointListener, Endpoint):
         except AttributeError:
             return object.__getattribute__(self.endpoint, item)
 
+    def add_listener(self, listener: EndpointListener) -> None:
+        """
+        Forward directly to the underlying endpoint.
+        """
+        self.endpoint.add_listener(listener)
+
+    def add_prefix_listener(self, listener: EndpointListener, prefix: bytes) -> None:
+        """
+        Forward directly to the underlying endpoint.
+        """
+        self.endpoint.add_prefix_listener(listener, prefix)
+
+    def remove_listener(self, listener: EndpointListener) -> None:
+        """
+        Forward directly to the underlying endpoint.
+        """
+        self.endpoint.remove_listener(listener)
+
+    def notify_listeners(self, packet: tuple[Address, bytes]) -> None:
+        """
+        Forward directly to the underlying endpoint.
+        """
+        self.endpoint.notify_listeners(packet)
+
     def assert_open(self) -> None:
         """
         Forward directly to the underlying endpoint.
